@@ -58,6 +58,21 @@ func genCli(g *G, n int, out io.Writer) {
 		pd{"empty-level", strings.Replace(okProfile, "violation:\n", "info: []\nviolation:\n", 1), okData},
 		pd{"numeric-message", strings.Replace(okProfile, "message: m", "message: 5", 1), okData},
 	)
+	// sizes: a data document on ONE line far longer than any line buffer, and a profile with one very long line
+	{
+		var nodes []string
+		for k := 0; k < 1500; k++ {
+			nodes = append(nodes, fmt.Sprintf(`{"@id":"http://ex.org/n/%d","@type":["%sT"],"%sq":"value number %d"}`, k, NS, NS, k))
+		}
+		inputs = append(inputs, pd{"long-line-data", okProfile, "[" + strings.Join(nodes, ",") + "]"})
+		var vals []string
+		for k := 0; k < 9000; k++ {
+			vals = append(vals, fmt.Sprintf("value-%d", k))
+		}
+		longProfile := strings.Replace(okProfile, "        minCount: 1\n", "        minCount: 1\n        in: ["+strings.Join(vals, ", ")+"]\n", 1)
+		inputs = append(inputs, pd{"long-line-profile", longProfile, okData})
+		inputs = append(inputs, pd{"long-message", strings.Replace(okProfile, "message: m", "message: "+strings.Repeat("a long sentence; ", 5000), 1), okData})
+	}
 	bad := []pd{
 		{"bad-profile", "profile: [", okData},
 		{"bad-profile-prefix", profVariants[9].text, okData},
